@@ -416,8 +416,16 @@ def check_boundary_move(idx, run):
               loc(cls.module, app))
 
 
+
+GUARDED = [
+    ('GOMoveIterationBoundariesInsideKernelTrans', 'validate'),
+    ('GOceanLoopFuseTrans', 'validate'),
+]
+
 def check(idx, run):
     run.explanation = __doc__
+    from sa.guards import check_guards
+    check_guards(idx, run, "C25.R6", GUARDED)
     check_envelope(idx, run)
     check_user_spaces(idx, run)
     check_bound_names(idx, run)
